@@ -402,6 +402,15 @@ int register_mod_src(m_mod_t *mod, m_src_types type, const void *src_data,
         }
         return !ret ? 0 : -errno;
     }
+    /*
+     * src was not stored (eg: -EEXIST): as for any refused registration,
+     * user keeps ownership of its fd and userptr (the fd is the one the already registered source is using!).
+     * Only release what create_src() duplicated.
+     */
+    src->flags &= ~M_SRC_AUTOFREE;
+    if (!(flags & M_SRC_DUP)) {
+        src->flags &= ~M_SRC_FD_AUTOCLOSE;
+    }
     m_mem_unref(src);
     return ret;
 }
